@@ -149,6 +149,10 @@ def _decide(h, meta, cfg, r):
         vac = [d for d, t in vc.disj if t == 'END']
     r['disjuncts'] = dict(total=len(tags), main=len(main), marker=len(vac))
     if not vac:
+        # the harness end is statically unreachable. For a normal harness that can be a genuine violation
+        # (the code under test panics on every input): replay natively on the pinned inputs to find out.
+        if h['kind'] == 'normal' and _replay_pinned(h, work, r):
+            return
         r['verdict'] = 'error'
         r['detail'] = 'vacuity marker not present in the VC (harness end / call site statically unreachable)'
         return
@@ -174,7 +178,7 @@ def _decide(h, meta, cfg, r):
                 for variant in (0, 1):
                     pl = []
                     for k in range(engine.NINPUT):
-                        num = (k * 37 + 11) % 101 + 8 if variant == 0 else -((k * 53 + 7) % 89) - 3
+                        num = pinned_value(k, variant)
                         if mode == 'R':
                             lit = f'(/ {abs(num)}.0 8.0)' if num >= 0 else f'(- (/ {abs(num)}.0 8.0))'
                         else:
@@ -194,6 +198,8 @@ def _decide(h, meta, cfg, r):
                 if v == 'sat':
                     break
             r['vacuity'] = v
+            if v == 'unsat' and h['kind'] == 'normal' and _replay_pinned(h, work, r):
+                return
             if v != 'sat':
                 r['verdict'] = 'error' if v == 'unsat' else 'undecided'
                 r['detail'] = f'vacuity twin is {v}: the harness end (or call site) is not reachable / not decided' + (o[:300] if v == 'error' else '')
@@ -265,6 +271,33 @@ def _decide(h, meta, cfg, r):
         # next mode (U -> B -> R escalation)
     if final:
         r['verdict'], r['detail'] = final
+
+
+def pinned_value(k, variant):
+    num = (k * 37 + 11) % 101 + 8 if variant == 0 else -((k * 53 + 7) % 89) - 3
+    return num
+
+
+def _replay_pinned(h, work, r):
+    """native run of the harness on the pinned input sets; a FAIL/PANIC there is a reproduced violation"""
+    for variant in (0, 1):
+        model = {'f64': {k: ('real', Fraction(pinned_value(k, variant), 8)) for k in range(engine.NINPUT)}, 'u64': {}}
+        ipath = os.path.join(work, f'pinned_{variant}.inputs')
+        write_inputs(ipath, model)
+        reps = native_replay(h['name'], ipath)
+        bad = [(p, res) for p, res, _ in reps if res.startswith('FAIL') or res.startswith('PANIC')]
+        r['replays'].append(dict(mode='pinned', inputs={'pinned_set': variant}, results=[(p, res) for p, res, _ in reps], file=ipath))
+        if bad:
+            r['verdict'] = 'violation'
+            r['decided_in'] = 'symex (harness end unreachable) + native replay'
+            r['detail'] = 'harness end unreachable for every input; ' + '; '.join(f'{p}: {res}' for p, res in bad)
+            rdir = os.path.join(VERIF, 'replays')
+            os.makedirs(rdir, exist_ok=True)
+            rp = os.path.join(rdir, f"{h['name']}.inputs")
+            shutil.copy(ipath, rp)
+            r['replay'] = rp
+            return True
+    return False
 
 
 def build_native(log):
